@@ -11,9 +11,11 @@
 import itertools, os
 from vlib.proto import hexs, unhex
 from checks import xpcomp as X
+from checks import xpparsecomp
 
-LEAN_TARGETS = ["LyModel.Props.C08"]
+LEAN_TARGETS = ["LyModel.Props.C08", "LyModel.Props.C08Parse"]
 AUDIT = "Audit/C08.lean"
+GENERATED = ["XpConsts"]
 ASSUMPTIONS = [
     "XPath numbers: the engine is parametric in the number type; the driver instantiates IEEE doubles, libyang uses x87 long double — generated numbers "
     "stay on small integers and dyadic fractions where both are exact (DESIGN §3); results are compared in thousandths, NaN/±Inf as tokens",
@@ -32,8 +34,13 @@ ASSUMPTIONS = [
     "the last top-level node of a generated tree has a child (F259).  Each of these findings has explicit witnesses run on every invocation",
     "corrections made to the machinery while building it (no claim was loosened): bare `/` is parenthesised when it is an operand (REC §3.7 lexing); "
     "`.` is evaluated as the step self::node(); value-aware predicates use integer literals only for digit strings; batches of 12 trees",
+    "the expression text reaches the engine through the Lean model of lyxp_expr_parse (LyModel/XPath/Lex.lean, Parse.lean); the model is tied "
+    "to xpath.c by the white-box token differential (wb_xpath xplex / xpparse: kind, offset, length, exp->repeat of every token) and by the "
+    "extractor of its tables (Generated/XpConsts.lean), not by a C semantics; parse_render_roundtrip is a theorem about that model",
 ]
-TRUSTED = ["harness/api_xpath.c, harness/wb_xpath.c", "python AST -> XPath text / prefix form renderers in tools/checks/xpcomp.py",
+TRUSTED = ["harness/api_xpath.c, harness/wb_xpath.c",
+           "python AST -> XPath text / prefix form renderers in tools/checks/xpcomp.py (cross-checked on every evaluation: the text parsed by the "
+           "model parser and the prefix form must denote the same tree)", "tools/extractors/xpath.py",
            "LyModel/XPath/FloatNum.lean (Float instance of the number type, driver only)"]
 
 HARNESS = "api_xpath"
@@ -50,6 +57,8 @@ def classify(component, what, case):
         return case["quirk"]
     if case.get("witness") in NOT_MIRRORED:
         return case["witness"]
+    if case.get("rec37") in ("F350", "F351", "F352"):
+        return case["rec37"]      # tokenizer deviations from REC 3.7, replayed by rec37_witnesses()
     if case.get("where") == "s" and case.get("validate") == ["ok", "valid"] and "xpa:s" in (case.get("expr") or "") and \
             any(b[:3] == ["ok", "bool", "0"] for b in case.get("evalb", [])):
         return "F265"        # a when that reaches its own node by a child step is never evaluated
@@ -100,6 +109,45 @@ def live_mask(cx):
     return m
 
 
+def model_prefix(e):
+    """prefix form sent to the model next to the text.  The text of an expression-path without steps, ('path', ('E', x), []), and of a filter without
+    predicates is the text of the inner expression x (`current()` for P E F current 0 0): the driver parses the text with the model's own parser and
+    cross-checks the result against this prefix form, so the inner expression is the tree both routes must agree on (xpparsecomp.norm)."""
+    return X.prefix(xpparsecomp.norm(e))
+
+
+REC37 = [  # (finding, text, what XPath 1.0 says, reply prefix of libyang that reproduces the finding)
+    ("F350", "a orb", "error: the NCName orb in operator position is no OperatorName", "ok 3 "),
+    ("F350", "1 mod3", "error: the NCName mod3 in operator position is no OperatorName", "ok 3 "),
+    ("F350", "6 div2", "error", "ok 3 "),
+    ("F350", "a andb", "error", "ok 3 "),
+    ("F351", "child :: a", "the same as child::a", "err Lex"),
+    ("F351", "child:: a", "the same as child::a", "err Lex"),
+    ("F351", "child ::a", "the same as child::a", "err Lex"),
+    ("F352", "*:a", "error: no such NameTest in XPath 1.0", "ok 1 "),
+    ("F352", "*:*", "error", "ok 1 "),
+]
+
+
+def rec37_witnesses(cx):
+    """the witnesses of lex_opname_disambiguation_fails (F350) and of the two other recorded tokenizer deviations, replayed on
+    libyang (wb_xpath xpparse); the model must give the same reply (it mirrors the deviation)."""
+    lines = ["r%d %s xpparse %s" % (i, COMP, hexs(t)) for i, (_, t, _, _) in enumerate(REC37)]
+    ri = cx.run_impl("wb_xpath", lines)
+    rm = cx.run_model(lines)
+    seen = set()
+    for i, (fid, t, rec, pat) in enumerate(REC37):
+        ra, rb = ri.get("r%d" % i, ["err", "NoReply"]), rm.get("r%d" % i, ["err", "NoReply"])
+        a, b = " ".join(ra), " ".join(rb)
+        cx.count(("rec37", t), nontrivial=True, kind="rec37-witness")
+        if a != b:
+            cx.disagree(COMP, lines[i], ra, rb)
+        elif (a + " ").startswith(pat) and fid not in seen:
+            seen.add(fid)
+            cx.fail(COMP, "tokenizer deviates from XPath 1.0 section 3.7", {"rec37": fid, "expr": t, "impl": a, "xpath10": rec})
+    cx.rule("REC 3.7 witnesses replayed on lyxp_expr_parse: %s" % ", ".join(sorted(seen)))
+
+
 def run_groups(cx, groups, kind_tag):
     """groups: list of (xml, [(op, ctx, expr_ast, meta)]).  Sends everything through harness and model; returns list of
     (group index, item index, line, impl reply, model reply, dump)."""
@@ -124,7 +172,7 @@ def run_groups(cx, groups, kind_tag):
         for ii, (op, c, e, meta) in enumerate(items):
             txt = meta.get("text") or X.render(e)
             lid = "e%d_%d" % (gi, ii)
-            lines.append("%s %s %s %d %s %s %s %d" % (lid, COMP, op, c, hexs(txt), hexs(X.prefix(e)), dumps[gi], live_mask(cx)))
+            lines.append("%s %s %s %d %s %s %s %d" % (lid, COMP, op, c, hexs(txt), hexs(model_prefix(e)), dumps[gi], live_mask(cx)))
             index[lid] = (gi, ii)
     ri = run_impl_stateful(cx, lines)
     rm = cx.run_model(lines)
@@ -264,6 +312,9 @@ def run(cx):
             "random trees x random context nodes x type-directed expressions of fragment X1 (12 axes, name/*/node()/text() tests, nested predicates, "
             "operators, core function library); non-trivial = distinct (tree, context, expression) with a non-error result")
     corpus(cx)
+    # tokenizer / grammar check of lyxp_expr_parse against the Lean lexer and parser; text <-> AST route of the Lean parser / renderer
+    xpparsecomp.run_tokens(cx, extra=xpparsecomp.run_ast_route(cx))
+    rec37_witnesses(cx)
     ntrees, nexpr, depth = cx.n(36, 220), cx.n(140, 400), cx.n(3, 4)
     base = gen_groups(cx, ntrees, nexpr, depth)
     # first obtain node counts so that contexts can be chosen: one load pass
@@ -337,7 +388,7 @@ def witnesses(cx):
         ws = [(fid, c, e) for (fid, c, e) in X.WITNESSES if fid in NOT_MIRRORED]
         lines = [schema_line("s"), "t %s tree x %s %s" % (COMP, hexs(X.WITNESS_XML), dumps[0])]
         for n, (fid, c, e) in enumerate(ws):
-            lines.append("w%d %s eval %d %s %s %s" % (n, COMP, c, hexs(X.render(e)), hexs(X.prefix(e)), dumps[0]))
+            lines.append("w%d %s eval %d %s %s %s" % (n, COMP, c, hexs(X.render(e)), hexs(model_prefix(e)), dumps[0]))
         ri = run_impl_stateful(cx, lines)
         rm = cx.run_model(["w%d %s evalq 0 %s" % (n, COMP, " ".join(lines[n + 2].split()[3:])) for n in range(len(ws))])
         for n, (fid, c, e) in enumerate(ws):
